@@ -191,12 +191,10 @@ Definition twc_step (sub : string -> string -> result (taskinfo * dict))
         match dflt with
         | Some d =>
             if String.eqb d "" then Err EValue else
-            (* [return self[self.default], ours]: whatever configuration the
-               default's own lookup accumulated is dropped *)
-            match twc_nonempty sub tasks aliases has_sub ad ours d with
-            | Ok (t, _) => Ok (t, ours)
-            | Err e => Err e
-            end
+            (* [return self.task_with_config(self.default)] (since 432fa0a; it
+               used to be [self[self.default], ours], dropping whatever
+               configuration the default's own lookup accumulated: F-C17b) *)
+            twc_nonempty sub tasks aliases has_sub ad ours d
         | None => Err EValue
         end
       else twc_nonempty sub tasks aliases has_sub ad ours name
@@ -233,3 +231,197 @@ Definition configuration (c : coll) (name : string) : result dict :=
   match task_with_config c name with Ok (_, d) => Ok d | Err e => Err e end.
 
 Definition configuration_none (c : coll) : result dict := copy_dict (Node (c_config c)).
+
+(** * Flattening: [task_names], [to_contexts], the parser's context registry *)
+Definition subtask_name (ad : bool) (cn tn : string) : string :=
+  (transform ad cn ++ "." ++ transform ad tn)%string.
+
+(** dict primary -> aliases (Python dict assignment: later wins, position kept). *)
+Fixpoint task_names (c : coll) : list (string * list string) :=
+  match c with
+  | Coll _ tasks _ subs _ ad _ =>
+      let own :=
+        fold_left (fun acc kt => aset (fst kt) (map (transform ad) (t_aliases (snd kt))) acc)
+                  tasks [] in
+      (fix go (l : list (string * coll)) (acc : list (string * list string)) {struct l}
+         : list (string * list string) :=
+         match l with
+         | [] => acc
+         | (cn, sc) :: l' =>
+             go l' (fold_left
+                      (fun acc ta =>
+                         let als := map (subtask_name ad cn) (snd ta) in
+                         let als' := if opt_str_eqb (c_default sc) (Some (fst ta))
+                                     then als ++ [cn] else als in
+                         aset (subtask_name ad cn (fst ta)) als' acc)
+                      (task_names sc) acc)
+         end) subs own
+  end.
+
+(** A parser context as far as C10 cares: name, aliases, the task it was built from. *)
+Definition ctx := (string * list string * nat)%type.
+
+Fixpoint ctxs_of (c : coll) (l : list (string * list string)) : result (list ctx) :=
+  match l with
+  | [] => Ok []
+  | (p, als) :: l' =>
+      match getitem c p with
+      | Ok t => match ctxs_of c l' with
+                | Ok r => Ok ((p, als, t_id t) :: r)
+                | Err e => Err e
+                end
+      | Err e => Err e
+      end
+  end.
+
+Definition to_contexts (c : coll) : result (list ctx) := ctxs_of c (task_names c).
+
+(** [Parser.__init__]: a Lexicon of contexts; duplicates are a ValueError. *)
+Definition preg := (list (string * nat) * list (string * string))%type.
+
+Definition preg_has (r : preg) (k : string) : bool := has_key k (fst r) || has_key k (snd r).
+
+Fixpoint preg_aliases (als : list string) (name : string) (r : preg) : result preg :=
+  match als with
+  | [] => Ok r
+  | a :: rest =>
+      if preg_has r a then Err EValue
+      else preg_aliases rest name (fst r, aset a name (snd r))
+  end.
+
+Fixpoint parser_init (cs : list ctx) (r : preg) : result preg :=
+  match cs with
+  | [] => Ok r
+  | (name, als, tid) :: rest =>
+      if String.eqb name "" then Err EValue
+      else if preg_has r name then Err EValue
+      else match preg_aliases als name (aset name tid (fst r), snd r) with
+           | Ok r' => parser_init rest r'
+           | Err e => Err e
+           end
+  end.
+
+Definition parser_of (c : coll) : result preg :=
+  match to_contexts c with
+  | Ok cs => parser_init cs ([], [])
+  | Err e => Err e
+  end.
+
+(** the context a CLI token selects: its (primary) name *)
+Definition preg_primary (r : preg) (tok : string) : option string :=
+  if has_key tok (fst r) then Some tok else assoc tok (snd r).
+
+(** [Program.run([prog, tok])] for an argument-less task: the parser picks the
+    context, the executor looks its *primary name* up again and runs that. *)
+Definition cli_run (c : coll) (tok : string) : result (option nat) :=
+  match parser_of c with
+  | Err e => Err e
+  | Ok r =>
+      match preg_primary r tok with
+      | None => Ok None                       (* ParseError: nothing runs *)
+      | Some p => match getitem c p with
+                  | Ok t => Ok (Some (t_id t))
+                  | Err e => Err e
+                  end
+      end
+  end.
+
+(** * Listings ([Program._make_pairs], [Collection.serialized]) *)
+(** A listing row: indentation depth, displayed name, displayed aliases, and
+    the task shown (None for a collection row). *)
+Definition row := (nat * string * list string * option nat)%type.
+
+Fixpoint insert_by {A} (key : A -> string) (x : A) (l : list A) : list A :=
+  match l with
+  | [] => [x]
+  | y :: l' => if String.ltb (key x) (key y) then x :: y :: l' else y :: insert_by key x l'
+  end.
+
+(** stable sort by string key (Python [sorted]) *)
+Definition sort_by {A} (key : A -> string) (l : list A) : list A :=
+  fold_left (fun acc x => insert_by key x acc) l [].
+
+Definition is_default (dflt : option string) (k : string) : bool := opt_str_eqb dflt (Some k).
+
+(** flat format, no --list-root, no depth limit *)
+Fixpoint flat_rows (c : coll) (anc : list string) {struct c} : list row :=
+  match c with
+  | Coll _ tasks _ subs dflt ad _ =>
+      let prefix := join "." anc in
+      let dotted (s : string) : string :=
+        match anc with [] => s | _ => (prefix ++ "." ++ s)%string end in
+      let task_rows :=
+        map (fun kt =>
+               let als := map (fun a => dotted (transform ad a))
+                              (sort_by (fun x => x) (t_aliases (snd kt))) in
+               let als' := match anc with
+                           | [] => als
+                           | _ => if is_default dflt (fst kt) then prefix :: als else als
+                           end in
+               (0, dotted (fst kt), als', Some (t_id (snd kt))))
+            (sort_by fst tasks) in
+      task_rows ++
+      flat_map (fun k =>
+                  (fix find (l : list (string * coll)) {struct l} : list row :=
+                     match l with
+                     | [] => []
+                     | (k', sc) :: l' =>
+                         if String.eqb k k' then flat_rows sc (anc ++ [k]) else find l'
+                     end) subs)
+               (sort_by (fun x => x) (akeys subs))
+  end.
+
+(** nested format *)
+Fixpoint nested_rows (c : coll) (anc : list string) {struct c} : list row :=
+  match c with
+  | Coll _ tasks _ subs dflt ad _ =>
+      let depth := List.length anc in
+      let rel (s : string) : string :=
+        match anc with [] => s | _ => ("." ++ s)%string end in
+      let task_rows :=
+        map (fun kt =>
+               let als := map (fun a => rel (transform ad a))
+                              (sort_by (fun x => x) (t_aliases (snd kt))) in
+               let nm := rel (fst kt) in
+               let nm' := if is_default dflt (fst kt) then (nm ++ "*")%string else nm in
+               (depth, nm', als, Some (t_id (snd kt))))
+            (sort_by fst tasks) in
+      task_rows ++
+      flat_map (fun k =>
+                  (depth, rel k, [], None) ::
+                  (fix find (l : list (string * coll)) {struct l} : list row :=
+                     match l with
+                     | [] => []
+                     | (k', sc) :: l' =>
+                         if String.eqb k k' then nested_rows sc (anc ++ [k]) else find l'
+                     end) subs)
+               (sort_by (fun x => x) (akeys subs))
+  end.
+
+Definition ostr (o : option string) : string := match o with Some s => s | None => "" end.
+
+(** [serialized()] flattened pre-order: a header row per collection
+    (depth, own name, [default], None) followed by its task rows (own names,
+    own aliases) and then its sub-collections, sorted by their *own* names. *)
+Fixpoint json_rows (c : coll) (depth : nat) {struct c} : list row :=
+  match c with
+  | Coll nm tasks _ subs dflt ad _ =>
+      let header : row :=
+        (depth, ostr nm, match dflt with Some d => [d] | None => [] end, None) in
+      let task_rows :=
+        map (fun t => (S depth, transform ad (t_name t), map (transform ad) (t_aliases t),
+                       Some (t_id t)))
+            (sort_by t_name (map snd tasks)) in
+      (* sub-collections in the order of sorted(values, key=own name): sort the
+         (own name, binding key) pairs stably, then fetch by binding key *)
+      let order := sort_by fst (map (fun kc => (ostr (c_name (snd kc)), fst kc)) subs) in
+      header :: task_rows ++
+      flat_map (fun nk =>
+                  (fix find (l : list (string * coll)) {struct l} : list row :=
+                     match l with
+                     | [] => []
+                     | (k', sc) :: l' =>
+                         if String.eqb (snd nk) k' then json_rows sc (S depth) else find l'
+                     end) subs)
+               order
+  end.
